@@ -1,4 +1,4 @@
-import MpVerif.C19.LemmasSched
+import MpVerif.C19.LemmasBuild
 import MpVerif.Gen.C19Names
 /-!
 # C19 — property theorems
@@ -242,11 +242,10 @@ suffix-free source names; every storing operation finds its source named; siblin
 (for counted labels this is `C19_counted_siblings_distinct`; for `_slk_`/`_equ_` a range constraint is
 converted once); equal non-plain labels never leave plain-related cells; no delivered cell is a
 plain-chain descendant of another delivered cell. -/
-theorem C19_unique_cons_partial (init : St) (ops : List Op) (D : List Nat) (R : List (Nat × Nat))
+theorem unique_core (init : St) (ops : List Op) (D : List Nat)
     (hsf : SuffixFree init) (hwf : wellFed init ops = true)
-    (hsib : sibDistinctB (edges init ops) = true)
-    (hcl : closedB (edges init ops) R = true) (hnc : noClashB (edges init ops) R = true)
-    (hbf : belowFreeB R D = true) :
+    (hsib : SibDistinct (edges init ops)) (hnc : NoClash (edges init ops))
+    (hbf : ∀ u ∈ D, ∀ v ∈ D, ¬ Below (edges init ops) u v) :
     ∀ u ∈ D, ∀ v ∈ D, deliveredConName (run init ops) u ≠ [] →
       deliveredConName (run init ops) u = deliveredConName (run init ops) v → u = v := by
   intro u hu v hv hne heq
@@ -269,10 +268,20 @@ theorem C19_unique_cons_partial (init : St) (ops : List Op) (D : List Nat) (R : 
   have hstrip : strip ls = strip ls' := by
     apply renderRev_inj _ _ (noPlain_strip ls) (noPlain_strip ls')
     rw [renderRev_strip, renderRev_strip, hren]
-  rcases path_rel (sibDistinctB_sound hsib) (noClashB_sound hcl hnc) hp hp' hstrip with h | h | h
+  rcases path_rel hsib hnc hp hp' hstrip with h | h | h
   · exact h
-  · exact absurd h (belowFreeB_sound hcl hbf hu hv)
-  · exact absurd h (belowFreeB_sound hcl hbf hv hu)
+  · exact absurd h (hbf u hu v hv)
+  · exact absurd h (hbf v hv u hu)
+
+theorem C19_unique_cons_partial (init : St) (ops : List Op) (D : List Nat) (R : List (Nat × Nat))
+    (hsf : SuffixFree init) (hwf : wellFed init ops = true)
+    (hsib : sibDistinctB (edges init ops) = true)
+    (hcl : closedB (edges init ops) R = true) (hnc : noClashB (edges init ops) R = true)
+    (hbf : belowFreeB R D = true) :
+    ∀ u ∈ D, ∀ v ∈ D, deliveredConName (run init ops) u ≠ [] →
+      deliveredConName (run init ops) u = deliveredConName (run init ops) v → u = v :=
+  unique_core init ops D hsf hwf (sibDistinctB_sound hsib) (noClashB_sound hcl hnc)
+    (fun _ hu _ hv => belowFreeB_sound hcl hbf hu hv)
 
 /-- **Uniqueness of variable (and objective) names**: these are read through one more
 `MakeCountedName`, so additionally the delivered cells must never have been counted -/
@@ -355,6 +364,84 @@ theorem C19_generic_names_distinct (stub : Name) (i j : Nat) (h : genericName st
   have h2 := List.append_cancel_right h1
   exact dec_inj h2
 
+/-! ### graphs built through the constructor API: the structural hypotheses hold by construction -/
+
+/-- every graph the converter can register through the constructor API (any call sequence; calls whose guard fails are
+ignored) is fed topologically -/
+theorem C19_built_topological (calls : List Call) : topoB (build calls).roots (build calls).ops = true :=
+  (binv_build calls).topo
+
+/-- ... and, once the last scope is closed, covers every existing item -/
+theorem C19_built_covered (calls : List Call) (hs : (build calls).scope = none) :
+    coveredB (build calls).roots (build calls).ops (build calls).items = true := by
+  simp only [coveredB, List.all_eq_true, Bool.or_eq_true, List.contains_iff_mem, List.any_eq_true, beq_iff_eq]
+  intro c hc
+  rcases (binv_build calls).items_fed c hc with h | ⟨s, ts, h, _⟩
+  · exact h
+  · rw [hs] at h; simp at h
+
+/-- **Non-emptiness, no structural hypothesis left**: for every registration sequence of the constructor API, if the
+original items have non-empty names then every item that exists (hence every delivered one) has a non-empty name -/
+theorem C19_nonempty_built (calls : List Call) (init : St) (hs : (build calls).scope = none)
+    (hroots : ∀ c ∈ (build calls).roots, (init.get c).s ≠ []) :
+    ∀ c ∈ (build calls).items, ((run init (build calls).ops).get c).s ≠ [] :=
+  C19_nonempty_delivered _ _ init _ hroots (C19_built_topological calls) (C19_built_covered calls hs)
+
+/-- sibling labels are distinct in every built graph (counted labels by the counters, `_slk_`/`_equ_` because the API
+converts a range constraint once) -/
+theorem C19_built_sibDistinct (calls : List Call) (init : St) : SibDistinct (edges init (build calls).ops) := by
+  intro e he e' he' hp hl
+  cases hidx : e.l.idx with
+  | some j => exact C19_counted_siblings_distinct init _ e he e' he' hp hl (by rw [hidx]; rfl)
+  | none =>
+    obtain ⟨o, ho, h1, h2, h3⟩ := edge_from_op _ init e he
+    obtain ⟨o', ho', h1', h2', h3'⟩ := edge_from_op _ init e' he'
+    obtain ⟨eq, hoe, hle⟩ := h3 hidx
+    obtain ⟨eq', hoe', hle'⟩ := h3' (by rw [← hl]; exact hidx)
+    have heq : eq = eq' := slackLab_inj (by rw [← hle, ← hle', hl])
+    subst heq
+    have hc := (binv_build calls).sg_fun o ho o' ho' e.p eq e.c e'.c hoe (by rw [hp]; exact hoe')
+    cases e with
+    | mk p l c =>
+      cases e' with
+      | mk p' l' c' =>
+        simp only at hp hl hc
+        subst hp hl hc
+        rfl
+
+/-- **Uniqueness of constraint names for built graphs**: the only hypotheses left are the ones that depend on the user's
+names (`SuffixFree`) and on the shape defect recorded as an open finding (`NoClash`: equal non-plain labels never leave
+plain-related cells); feeding, coverage, sibling labels and the leaf property of delivered items hold by construction -/
+theorem C19_unique_cons_built_partial (calls : List Call) (init : St) (hs : (build calls).scope = none)
+    (hroots : ∀ c ∈ (build calls).roots, (init.get c).s ≠ [])
+    (hsf : SuffixFree init) (hnc : NoClash (edges init (build calls).ops)) :
+    ∀ u ∈ (build calls).leaves, ∀ v ∈ (build calls).leaves,
+      deliveredConName (run init (build calls).ops) u = deliveredConName (run init (build calls).ops) v → u = v := by
+  intro u hu v hv heq
+  have hwf := C19_wellFed_of_topological _ _ init hroots (C19_built_topological calls)
+  have hne : deliveredConName (run init (build calls).ops) u ≠ [] :=
+    C19_nonempty_built calls init hs hroots u ((mem_leaves _ u).mp hu).1
+  refine unique_core init _ (build calls).leaves hsf hwf (C19_built_sibDistinct calls init) hnc ?_ u hu v hv hne heq
+  intro a ha b _ hb
+  obtain ⟨c, hc, _⟩ := hb.head
+  obtain ⟨o, ho, h1, _, _⟩ := edge_from_op _ init _ hc
+  exact ((mem_leaves _ a).mp ha).2 o ho h1.symm
+
+/-- the same for variables and objectives (read through one more `MakeCountedName`): leaves are never counted -/
+theorem C19_unique_vars_built_partial (calls : List Call) (init : St) (hs : (build calls).scope = none)
+    (hroots : ∀ c ∈ (build calls).roots, (init.get c).s ≠ []) (hn0 : ∀ c, (init.get c).n = 0)
+    (hsf : SuffixFree init) (hnc : NoClash (edges init (build calls).ops)) :
+    ∀ u ∈ (build calls).leaves, ∀ v ∈ (build calls).leaves,
+      deliveredVarName (run init (build calls).ops) u = deliveredVarName (run init (build calls).ops) v → u = v := by
+  intro u hu v hv heq
+  have e : ∀ c ∈ (build calls).leaves, deliveredVarName (run init (build calls).ops) c = deliveredConName (run init (build calls).ops) c := by
+    intro c hc
+    have h0 : ((run init (build calls).ops).get c).n = 0 := by
+      rw [run_n_nonsrc _ init c ((mem_leaves _ c).mp hc).2]; exact hn0 c
+    simp [deliveredVarName, deliveredConName, VCStr.counted, cntSuffix, h0]
+  rw [e u hu, e v hv] at heq
+  exact C19_unique_cons_built_partial calls init hs hroots hsf hnc u hu v hv heq
+
 /-! ### non-vacuity: concrete non-trivial instances meeting all hypotheses of the conditional theorems -/
 
 /-- shape of a real run: row `c` (cell 0) and column `x` (cell 1); `x` is copied to the flat variable 10; `c` is
@@ -414,6 +501,19 @@ theorem C19_hypotheses_satisfiable :
   all_goals
     simp [exInit, exOps, run, deliveredConName, deliveredVarName, VCStr.counted, cntSuffix, step_s, step_n, Op.dst, Op.src, Op.lab,
       get_set_eq, get_set_ne, empty_get, cntLab, Lab.tok, hd2, hd3]
+
+/-- the example run is a built graph: registering column `x`, row `c` and the two conversion levels through the
+constructor API yields exactly `exOps`, with all guards passed, no scope left open, and the five delivered cells as
+leaves (so `C19_nonempty_built`, `C19_unique_*_built_partial` apply to a non-trivial instance) -/
+def exCalls : List Call :=
+  [.root 0, .root 1, .openScope 1, .create 10, .closeScope,
+   .openScope 0, .create 11, .create 12, .create 13, .closeScope,
+   .openScope 12, .create 14, .create 15, .closeScope]
+
+theorem C19_built_example :
+    (build exCalls).ops = exOps ∧ (build exCalls).ok = true ∧ (build exCalls).scope = none ∧
+    (build exCalls).roots = [1, 0] ∧ (build exCalls).leaves = [15, 14, 13, 11, 10] := by
+  decide
 
 /-- `C19_original_kept`: its hypotheses (empty target, named fresh source) hold for the copy of column `x` -/
 example : (exInit.get 10).s = [] ∧ (exInit.get 1).s ≠ [] ∧ (exInit.get 1).n = 0 := by
